@@ -68,7 +68,8 @@ void h_run(Case &c) {
   const char *s = d.pick(syn); c.descf("synthetic=\"%s\"", s);
   hwloc_topology_t t; hwloc_topology_init(&t); hwloc_topology_set_synthetic(t, s);
   // NO_CPUKINDS only ignores the kinds reported by the OS/XML: registered kinds must behave the same (F-C13-c)
-  { unsigned long tf = 0; if (d.chance(1, 3)) { if (d.chance(2, 3)) tf |= HWLOC_TOPOLOGY_FLAG_NO_CPUKINDS; if (d.chance(1, 3)) tf |= HWLOC_TOPOLOGY_FLAG_NO_MEMATTRS; if (d.chance(1, 3)) tf |= HWLOC_TOPOLOGY_FLAG_NO_DISTANCES; } if (tf) { hwloc_topology_set_flags(t, tf); c.descf(" flags=0x%lx", tf); c.cls("topology-flags:NO_*"); } }
+  unsigned long tf0 = 0; if (d.chance(1, 3)) { tf0 = HWLOC_TOPOLOGY_FLAG_INCLUDE_DISALLOWED; c.cls("topology-flags:INCLUDE_DISALLOWED"); }   // disallowed PUs stay in the topology: kinds follow the topology, not the allowed set
+  { unsigned long tf = tf0; if (d.chance(1, 3)) { if (d.chance(2, 3)) tf |= HWLOC_TOPOLOGY_FLAG_NO_CPUKINDS; if (d.chance(1, 3)) tf |= HWLOC_TOPOLOGY_FLAG_NO_MEMATTRS; if (d.chance(1, 3)) tf |= HWLOC_TOPOLOGY_FLAG_NO_DISTANCES; } if (tf) { hwloc_topology_set_flags(t, tf); c.descf(" flags=0x%lx", tf); c.cls("topology-flags:NO_*"); } }
   CHECK(c, hwloc_topology_load(t) == 0, "setup", "load failed");
   int npu = hwloc_get_nbobjs_by_type(t, HWLOC_OBJ_PU);
   std::vector<Reg> regs; int splits = 0, merges = 0;
@@ -100,6 +101,9 @@ void h_run(Case &c) {
       CHECK(c, rc == -1 && errno == EINVAL, "register_invalid", "%s returned %d errno %d", what.c_str(), rc, errno);
       CHECK(c, hwloc_cpukinds_get_nr(t, 0) == before, "register_invalid", "%s changed the number of kinds", what.c_str());
       hwloc_bitmap_free(b); c.cls("op:register-invalid");
+    } else if (k <= 9 && tf0 && o.chance(1, 2)) {   // change the allowed sets: kinds must not move
+      hwloc_bitmap_t b = hwloc_bitmap_alloc(); for (int i = 0; i < npu; i++) if (hwloc_bitmap_isset(hwloc_topology_get_topology_cpuset(t), i) && o.chance(1, 2)) hwloc_bitmap_set(b, i); if (hwloc_bitmap_iszero(b)) hwloc_bitmap_set(b, hwloc_bitmap_first(hwloc_topology_get_topology_cpuset(t)));
+      int r = hwloc_topology_allow(t, b, NULL, HWLOC_ALLOW_FLAG_CUSTOM); what = strf("allow(CUSTOM, %s)=%d", bstr(b).c_str(), r); CHECK(c, r == 0, "allow", "%s failed errno %d", what.c_str(), errno); hwloc_bitmap_free(b); c.cls("op:allow");
     } else if (k <= 9) {
       USet keep; for (int i = 0; i < npu; i++) if (hwloc_bitmap_isset(hwloc_topology_get_topology_cpuset(t), i) && !o.chance(1, 3)) keep.insert(i);
       if (keep.empty()) keep.insert(hwloc_bitmap_first(hwloc_topology_get_topology_cpuset(t)));
@@ -110,7 +114,7 @@ void h_run(Case &c) {
     } else if (k == 10) {
       hwloc_topology_t cp; CHECK(c, hwloc_topology_dup(&cp, t) == 0, "dup", "dup failed"); hwloc_topology_destroy(t); t = cp; what = "dup-and-continue"; c.cls("op:dup");
     } else {
-      std::string x = export_xml(t); hwloc_topology_t n; hwloc_topology_init(&n); hwloc_topology_set_xmlbuffer(n, x.c_str(), (int)x.size() + 1);
+      std::string x = export_xml(t); hwloc_topology_t n; hwloc_topology_init(&n); hwloc_topology_set_flags(n, tf0); hwloc_topology_set_xmlbuffer(n, x.c_str(), (int)x.size() + 1);
       CHECK(c, hwloc_topology_load(n) == 0, "xml_reload", "reload of the exported XML failed"); hwloc_topology_destroy(t); t = n; what = "xml-reload-and-continue"; c.cls("op:xml-reload");
     }
     c.desc("\n | " + what);
